@@ -483,6 +483,7 @@ pub struct Stats {
     pub getrandom_calls: u64,
     pub clock_reads_by_sut: u64,
     pub getpid_calls_by_sut: u64,
+    pub affinity_calls_by_sut: u64,
     pub epochs_private_fs: u64,
     pub epochs_shared_fs: u64,
     pub fs_leftovers: u64,
@@ -530,6 +531,7 @@ impl Stats {
         self.getrandom_calls += o.getrandom_calls;
         self.clock_reads_by_sut += o.clock_reads_by_sut;
         self.getpid_calls_by_sut += o.getpid_calls_by_sut;
+        self.affinity_calls_by_sut += o.affinity_calls_by_sut;
         self.epochs_private_fs += o.epochs_private_fs;
         self.epochs_shared_fs += o.epochs_shared_fs;
         self.fs_leftovers += o.fs_leftovers;
@@ -636,6 +638,7 @@ impl Stats {
                         self.getrandom_calls += ev["getrandom_calls"].as_u64().unwrap_or(0);
                         self.clock_reads_by_sut += ev["clock_calls"].as_u64().unwrap_or(0);
                         self.getpid_calls_by_sut += ev["getpid_calls"].as_u64().unwrap_or(0);
+                        self.affinity_calls_by_sut += ev["affinity_calls"].as_u64().unwrap_or(0);
                     }
                     _ => {}
                 }
